@@ -442,6 +442,59 @@ theorem reversed_range_empty (a b : Nat) (h : b ≤ a) (k : Nat) :
   show (!(Slice.range a b).accepts k) = true
   rw [this]; rfl
 
+/-- two slice expressions denote the same set -/
+def SliceEquiv (a b : Slice) : Prop := ∀ k, a.accepts k = b.accepts k
+
+/-- The boolean algebra laws hold for slice expressions (double negation, De Morgan,
+    commutativity, units and zeros), and the intersection of two ranges is the range of the
+    larger start and the smaller end — also for reversed, empty and overlapping ranges. -/
+theorem slice_algebra (a b : Slice) (s t u v : Nat) :
+    SliceEquiv (.not (.not a)) a ∧
+    SliceEquiv (.not (.and a b)) (.or (.not a) (.not b)) ∧
+    SliceEquiv (.not (.or a b)) (.and (.not a) (.not b)) ∧
+    SliceEquiv (.and a b) (.and b a) ∧ SliceEquiv (.or a b) (.or b a) ∧
+    SliceEquiv (.and a .all) a ∧ SliceEquiv (.or a .none) a ∧
+    SliceEquiv (.and a .none) .none ∧ SliceEquiv (.or a .all) .all ∧
+    SliceEquiv (.and a (.not a)) .none ∧ SliceEquiv (.or a (.not a)) .all ∧
+    SliceEquiv (.and (.range s t) (.range u v)) (.range (max s u) (min t v)) := by
+  refine ⟨?_, ?_, ?_, ?_, ?_, ?_, ?_, ?_, ?_, ?_, ?_, ?_⟩ <;> intro k <;>
+    simp only [Slice.accepts]
+  · simp
+  · simp [Bool.not_and]
+  · simp [Bool.not_or]
+  · exact Bool.and_comm _ _
+  · exact Bool.or_comm _ _
+  · simp
+  · simp
+  · simp
+  · simp
+  · simp
+  · simp
+  · rw [Bool.eq_iff_iff]
+    simp only [Bool.and_eq_true, decide_eq_true_eq]
+    omega
+
+/-- **Only the denoted sets matter for a retention**: slice expressions that accept the same
+    indexes give the same `retain_mut` / `retain` result (state and panic), whatever their shape. -/
+theorem retain_congr (m : Matrix α) (a a' b b' : Slice) (ha : SliceEquiv a a') (hb : SliceEquiv b b') :
+    m.exec (.retainMut a b) = m.exec (.retainMut a' b') ∧
+    m.exec (.retain a b) = m.exec (.retain a' b') := by
+  have ea : a.accepts = a'.accepts := funext ha
+  have eb : b.accepts = b'.accepts := funext hb
+  have e2 : Slice.accepts2D a b = Slice.accepts2D a' b' := by
+    funext r c; simp only [Slice.accepts2D, ea, eb]
+  have ec : ∀ n, countAccepted a n = countAccepted a' n := by
+    intro n; simp only [countAccepted, ea]
+  have ed : ∀ n, countAccepted b n = countAccepted b' n := by
+    intro n; simp only [countAccepted, eb]
+  have hmut : ∀ x : Matrix α, x.retainMut a b = x.retainMut a' b' := by
+    intro x; simp only [Matrix.retainMut, ec, ed, e2]
+  refine ⟨hmut m, ?_⟩
+  simp only [Matrix.exec, Matrix.retain]
+  cases m.clone with
+  | panic k => rfl
+  | ok c => simp only [hmut c]
+
 /-! ### a supply of values shared by a sequence of insertions -/
 
 /-- **One iterator lent (`by_ref`) to any sequence of `insert_row_with` / `insert_column_with`
